@@ -53,9 +53,12 @@ class FakeProxyEndpoint(object):
         self.proto = None
         self.tr = None
 
+    transport_factory = proto_helpers.StringTransport
+
     def connect(self, factory):
         self.proto = factory.buildProtocol(None)
-        self.tr = proto_helpers.StringTransport()
+        self.tr = self.transport_factory()
+        self.tr.proto = self.proto
         self.proto.makeConnection(self.tr)
         return defer.succeed(self.proto)
 
